@@ -2,6 +2,7 @@ import GodiProofs.Props.C06
 import GodiProofs.Props.C05
 import GodiProofs.Graph.Remove
 import GodiProofs.Graph.AddRollback
+import GodiProofs.Graph.Transitive
 /-!
 # C19 — The dependency graph always agrees with a plain digraph model
 
@@ -216,6 +217,18 @@ theorem remove_keeps_acyclic (g : Graph) (b : Base g) (k : Key)
 
 theorem remove_unknown_noop (g : Graph) (k : Key) (hk : k ∉ g.nodes) : removeProvider g k = g := by
   unfold removeProvider; simp [hk]
+
+/-- `GetTransitiveDependencies` returns the plain digraph's answer: exactly the nodes reachable from `k` by one or more
+edges, `k` itself excepted (it is marked visited before the walk, so a cycle through `k` does not list it), each once —
+with the fuel the model runs on, for every graph that satisfies the structural invariant (`Graph/Transitive.lean`) -/
+theorem transitive_dependencies_eq (g : Graph) (b : Base g) (k : Key) :
+    (getTransitiveDependencies g k).Nodup ∧
+    ∀ x, x ∈ getTransitiveDependencies g k ↔ (x ≠ k ∧ Reach (abs g).edge k x) :=
+  transitive_spec g b k
+
+/-- non-vacuity: 3 → 2 → 1 → 3 is a ring with a tail 1 → 4: from 3 everything but 3 itself -/
+example : let g := (detectCycles (addProviderDeferred (addProviderDeferred (addProviderDeferred {} 3 30 [2]) 2 20 [1]) 1 10 [3, 4])).1
+    getTransitiveDependencies g 3 = [2, 1, 4] ∧ getTransitiveDependencies g 4 = [] ∧ getTransitiveDependencies g 9 = [] := by decide
 
 /-- non-vacuity of `add_rejected_unchanged`, on the D14 witness: node 1 exists as a placeholder
 (2 depends on it); adding 1 → 2 closes a cycle, is rejected, and the graph is as before -/
